@@ -298,6 +298,12 @@ func (e *l1env) live() string {
 	for _, b := range e.pool {
 		s = append(s, hx([]byte(fmt.Sprintf(":%d", b.port))))
 	}
+	// likewise an IPv4 literal in brackets: Go's dialer takes "[127.0.0.1]:p" for 127.0.0.1:p
+	for _, b := range e.pool {
+		if strings.HasPrefix(b.addr, "127.0.0.1:") {
+			s = append(s, hx([]byte(fmt.Sprintf("[127.0.0.1]:%d", b.port))))
+		}
+	}
 	return strings.Join(s, ",")
 }
 
@@ -396,6 +402,13 @@ func finishProcess(e *l1env, tr *trace, mt *memTransport, tun *protocol.Tunnel, 
 	if ts := tun.TargetServer; strings.HasPrefix(ts, ":") {
 		for i, t := range tr.toks {
 			if t == "D:"+hx([]byte("127.0.0.1"+ts)) {
+				tr.toks[i] = "D:" + hx([]byte(ts))
+			}
+		}
+	}
+	if ts := tun.TargetServer; strings.HasPrefix(ts, "[127.0.0.1]:") {
+		for i, t := range tr.toks {
+			if t == "D:"+hx([]byte("127.0.0.1"+strings.TrimPrefix(ts, "[127.0.0.1]"))) {
 				tr.toks[i] = "D:" + hx([]byte(ts))
 			}
 		}
